@@ -192,4 +192,133 @@ theorem kLoop_inv (prm : Params K) (ip : Vec K → Vec K → K) (sqrt : K → K)
       | true => simp only at h; cases h; exact h1
       | false => simp only at h; exact ih (k + 1) s1 st' (by omega) h1 h
 
+/-- the `om` step (with or without residual replacement) keeps the invariant, for ANY `om` -/
+theorem tail_inv (prm : Params K) (ip : Vec K → Vec K → K) (sqrt : K → K) (A : CRS K) (hA : A.WF)
+    (Prec : Vec K → Vec K) (hP : ∀ v, A.ncols ≤ (Prec v).size) (f : Vec K) (epsT : K) (st1 st' : St K)
+    (hi : TInv prm ip sqrt A f st1) (h : tail prm ip sqrt A Prec f epsT st1 = .ok st') :
+    TInv prm ip sqrt A f st' := by
+  unfold tail at h
+  split at h
+  · cases h; exact hi
+  · split at h
+    · cases h
+    · cases h
+      obtain ⟨i1, i2, i3, i4⟩ := hi
+      have hr : (bw2 prm ip sqrt A Prec f st1).r = residual f A (bx prm ip sqrt A Prec st1) := by
+        show (if prm.replacement then residual f A (bx prm ip sqrt A Prec st1)
+              else axpby (-(bom prm ip sqrt A Prec st1)) (bt A Prec st1) 1 st1.w.r) = _
+        split
+        · rfl
+        · have := paired_update_inv f A hA (bom prm ip sqrt A Prec st1) (Prec st1.w.r) st1.x st1.w.t (hP _)
+          rw [← i1] at this
+          exact this
+      have hs : prm.smoothing = true →
+          (bw2 prm ip sqrt A Prec f st1).rs = residual f A (bw2 prm ip sqrt A Prec f st1).xs ∧
+          A.ncols ≤ (bw2 prm ip sqrt A Prec f st1).xs.size := fun hsm => ⟨(i4 hsm).1, (i4 hsm).2.1⟩
+      obtain ⟨p1, p2, p3, p4, p5⟩ := post_spec prm ip sqrt A hA f _ _ hr hs
+      unfold TInv
+      dsimp only
+      rw [p1, p2, p3]
+      exact ⟨hr, i2, fun hsm => p4 hsm, fun hsm => p5 hsm⟩
+
+/-- one pass of the `while` body keeps the invariant -/
+theorem body_inv (prm : Params K) (ip : Vec K → Vec K → K) (sqrt : K → K) (A : CRS K) (hA : A.WF)
+    (Prec : Vec K → Vec K) (hP : ∀ v, A.ncols ≤ (Prec v).size) (Pv : FArr (Vec K)) (f : Vec K) (epsT : K)
+    (st st' : St K) (hi : TInv prm ip sqrt A f st) (h : body prm ip sqrt A Prec Pv f epsT st = .ok st') :
+    TInv prm ip sqrt A f st' := by
+  rw [body_eq] at h
+  cases hk : kLoop prm ip sqrt A Prec Pv epsT prm.s 0 (bodyF prm ip Pv st) with
+  | error e => rw [hk] at h; cases h
+  | ok st1 =>
+    rw [hk] at h
+    simp only at h
+    have h0 : TInv prm ip sqrt A f (bodyF prm ip Pv st) := hi
+    have h1 := kLoop_inv prm ip sqrt A hA Prec hP Pv f epsT prm.s 0 _ st1 (by omega) h0 hk
+    exact tail_inv prm ip sqrt A hA Prec hP f epsT st1 st' h1 h
+
+/-- the state on loop entry satisfies the invariant (`U[i] = 0`, `G[i] = 0 = A·0`) -/
+theorem init_inv (prm : Params K) (ip : Vec K → Vec K → K) (sqrt : K → K) (A : CRS K) (hsq : A.ncols ≤ A.nrows)
+    (ws : Work K) (f x0 : Vec K) (hx : prm.smoothing = true → A.ncols ≤ x0.size) :
+    TInv prm ip sqrt A f (init prm ws x0 (residual f A x0) (nrmA ip sqrt (residual f A x0))) := by
+  obtain ⟨h1, h2, h3, _⟩ := initW_spec prm ws x0 (residual f A x0)
+  unfold TInv
+  rw [init_w, init_x, init_resNorm, h1]
+  refine ⟨rfl, ?_, fun _ => rfl, ?_⟩
+  · intro i hi
+    obtain ⟨g1, g2⟩ := h3 i hi
+    rw [g1, g2, spmv_vclear, residual_size', vclear_size]
+    exact ⟨rfl, hsq⟩
+  · intro hsm
+    obtain ⟨g1, g2⟩ := h2 hsm
+    rw [g1, g2, vcopy_eq, vcopy_eq]
+    exact ⟨rfl, hx hsm, rfl⟩
+
+/-- **normal exit of the `while` loop: the invariant holds** -/
+theorem final_inv (prm : Params K) (ip : Vec K → Vec K → K) (sqrt : K → K) (A : CRS K) (hA : A.WF)
+    (hsq : A.ncols ≤ A.nrows) (Prec : Vec K → Vec K) (hP : ∀ v, A.ncols ≤ (Prec v).size) (Pv : FArr (Vec K))
+    (ws : Work K) (f x0 : Vec K) (hx : prm.smoothing = true → A.ncols ≤ x0.size) (nf : K) (st : St K)
+    (h : final prm ip sqrt A Prec Pv ws f x0 nf = (none, st)) : TInv prm ip sqrt A f st := by
+  unfold final loop at h
+  exact loopE_inv _ _ (TInv prm ip sqrt A f)
+    (fun s s' hi _ hb => body_inv prm ip sqrt A hA Prec hP Pv f _ s s' hi hb) _ _ _
+    (init_inv prm ip sqrt A hsq ws f x0 hx) h
+
+/-- **IDR(s) reports the true residual of the `x` it returns** (with and without smoothing, with and without
+residual replacement): weakest shape hypotheses (`ncols ≤ nrows`, `Prec` returns at least `ncols` entries, and with
+smoothing `x0` has at least `ncols` entries) -/
+theorem solve_truthful (prm : Params K) (ip : Vec K → Vec K → K) (sqrt : K → K) (eps : K) (A : CRS K) (hA : A.WF)
+    (hsq : A.ncols ≤ A.nrows) (Prec : Vec K → Vec K) (hP : ∀ v, A.ncols ≤ (Prec v).size) (Pv : FArr (Vec K))
+    (ws : Work K) (f x0 : Vec K) (hx : prm.smoothing = true → A.ncols ≤ x0.size)
+    (it : Nat) (res : K) (x : Vec K) (w : Work K)
+    (h : solve prm ip sqrt eps A Prec Pv ws f x0 = .ok (it, res, x, w)) :
+    res = reported (prologueA prm.nsSearch ip sqrt eps f) (nrmA ip sqrt (residual f A x)) := by
+  rw [solve, Run.toExcept_ok] at h
+  cases hp : prologueA prm.nsSearch ip sqrt eps f with
+  | trivial n =>
+    rw [run_trivial prm ip sqrt eps A Prec Pv ws f x0 n hp] at h
+    simp only [Prod.mk.injEq, Except.ok.injEq] at h
+    simp [reported, h.1.2]
+  | go nf =>
+    rw [run_go prm ip sqrt eps A Prec Pv ws f x0 nf hp] at h
+    simp only [reported]
+    split at h
+    · simp only [Prod.mk.injEq, Except.ok.injEq] at h
+      rw [← h.1.2, ← h.2.1]
+    · cases hfin : final prm ip sqrt A Prec Pv ws f x0 nf with
+      | mk oe st =>
+        rw [hfin] at h
+        cases oe with
+        | some e => simp at h
+        | none =>
+          simp only [Prod.mk.injEq, Except.ok.injEq] at h
+          obtain ⟨⟨_, h2⟩, h3, _⟩ := h
+          obtain ⟨i1, _, i3, i4⟩ := final_inv prm ip sqrt A hA hsq Prec hP Pv ws f x0 hx nf st hfin
+          rw [← h2, ← h3]
+          cases hsm : prm.smoothing with
+          | false => simp only [Bool.false_eq_true, if_false]; rw [i3 hsm, i1]
+          | true =>
+            obtain ⟨j1, _, j3⟩ := i4 hsm
+            simp only [if_true]; rw [j3, j1, vcopy_eq]
+
+/-- **C01 for IDR(s) without smoothing** -/
+theorem solve_truthful_partial (prm : Params K) (hsm : prm.smoothing = false) (ip : Vec K → Vec K → K)
+    (sqrt : K → K) (eps : K) (A : CRS K) (hA : A.WF) (hsq : A.nrows = A.ncols) (Prec : Vec K → Vec K)
+    (hP : ∀ v, (Prec v).size = A.ncols) (Pv : FArr (Vec K)) (ws : Work K) (f x0 : Vec K)
+    (it : Nat) (res : K) (x : Vec K) (w : Work K)
+    (h : solve prm ip sqrt eps A Prec Pv ws f x0 = .ok (it, res, x, w)) :
+    res = reported (prologueA prm.nsSearch ip sqrt eps f) (nrmA ip sqrt (residual f A x)) :=
+  solve_truthful prm ip sqrt eps A hA (le_of_eq hsq.symm) Prec (fun v => le_of_eq (hP v).symm) Pv ws f x0
+    (fun h' => by rw [hsm] at h'; cases h') it res x w h
+
+/-- **C01 for IDR(s) with smoothing**: the returned `x` is `x_s`, the reported norm that of `r_s = f − A x_s`;
+needs the initial guess to have the length of the system (`x_s` starts as a copy of it) -/
+theorem solve_truthful_smoothing (prm : Params K) (ip : Vec K → Vec K → K)
+    (sqrt : K → K) (eps : K) (A : CRS K) (hA : A.WF) (hsq : A.nrows = A.ncols) (Prec : Vec K → Vec K)
+    (hP : ∀ v, (Prec v).size = A.ncols) (Pv : FArr (Vec K)) (ws : Work K) (f x0 : Vec K) (hx : x0.size = A.ncols)
+    (it : Nat) (res : K) (x : Vec K) (w : Work K)
+    (h : solve prm ip sqrt eps A Prec Pv ws f x0 = .ok (it, res, x, w)) :
+    res = reported (prologueA prm.nsSearch ip sqrt eps f) (nrmA ip sqrt (residual f A x)) :=
+  solve_truthful prm ip sqrt eps A hA (le_of_eq hsq.symm) Prec (fun v => le_of_eq (hP v).symm) Pv ws f x0
+    (fun _ => le_of_eq hx.symm) it res x w h
+
 end Amgcl.Solver.IDRs
